@@ -573,6 +573,9 @@ def exe_for_file(path, default_engine):
     return build(j.get("engine") or default_engine)
 
 
+NO_SAVE = False
+
+
 def check(pid, tier, seed):
     t_start = time.time()
     cfg = PROPS[pid]
@@ -747,8 +750,16 @@ def check(pid, tier, seed):
                              "engine": job_engine[w],
                              "case": case, "message": "crash", "crash": True})
         else:
+            tail = ""
+            try:
+                with open(log) as lf:
+                    tail = lf.read()[-1500:]
+            except OSError:
+                pass
             failures.append({"property": pid, "case": None,
-                             "message": "worker %d died (see %s)" % (w, log)})
+                             "message": "worker %d died and its case could "
+                                        "not be recovered" % w,
+                             "log_tail": tail})
 
     # 4. confirm + shrink + save
     unconfirmed = 0
@@ -756,7 +767,16 @@ def check(pid, tier, seed):
     seen_msgs = set()
     for fl in failures:
         if fl.get("case") is None:
-            violations.append(("", fl["message"]))
+            # the case could not be recovered: keep the evidence we have
+            digest = hashlib.sha256(fl["message"].encode()).hexdigest()[:12]
+            path = os.path.join(
+                BUILD, "scratch") if NO_SAVE else os.path.join(
+                ROOT, "replays", pid)
+            os.makedirs(path, exist_ok=True)
+            path = os.path.join(path, "died-%s.json" % digest)
+            with open(path, "w") as f:
+                json.dump(fl, f, indent=1)
+            violations.append((path, fl["message"]))
             continue
         if fl.get("engine") in PROGRAM_ENGINES:
             fl = shrink_program_failure(fl, scratch)
@@ -770,6 +790,9 @@ def check(pid, tier, seed):
             digest = hashlib.sha256(json.dumps(fl["case"], sort_keys=True)
                                     .encode()).hexdigest()[:12]
             path = os.path.join(ROOT, "replays", pid, "found-%s.json" % digest)
+            if NO_SAVE:
+                path = os.path.join(BUILD, "scratch",
+                                    "found-%s.json" % digest)
             with open(path, "w") as f:
                 json.dump(fl, f, indent=1)
             violations.append((path, fl["message"]))
@@ -808,6 +831,8 @@ def check(pid, tier, seed):
         digest = hashlib.sha256(json.dumps(fl["case"], sort_keys=True)
                                 .encode()).hexdigest()[:12]
         path = os.path.join(ROOT, "replays", pid, "found-%s.json" % digest)
+        if NO_SAVE:
+            path = os.path.join(BUILD, "scratch", "found-%s.json" % digest)
         with open(path, "w") as f:
             json.dump(fl, f, indent=1)
         violations.append((path, fl["message"]))
@@ -842,9 +867,10 @@ def check(pid, tier, seed):
         "wall_s": round(wall, 2),
         "violations": len(violations),
     }
-    os.makedirs(os.path.join(ROOT, "evidence"), exist_ok=True)
-    with open(os.path.join(ROOT, "evidence", pid + ".json"), "w") as f:
-        json.dump(evidence, f, indent=1)
+    if not NO_SAVE:
+        os.makedirs(os.path.join(ROOT, "evidence"), exist_ok=True)
+        with open(os.path.join(ROOT, "evidence", pid + ".json"), "w") as f:
+            json.dump(evidence, f, indent=1)
     shutil.rmtree(scratch, ignore_errors=True)
 
     for line in known_lines:
@@ -973,6 +999,8 @@ def main():
         print(build(args[1]))
         return 0
     if args[0] == "check":
+        global NO_SAVE
+        NO_SAVE = "--no-save" in args
         pid = args[1]
         tier = os.environ.get("VERIF_TIER", "quick")
         if "--tier" in args:
